@@ -132,7 +132,7 @@ func poolTensor(r *rand.Rand, d tensor.Dtype, shape []int, nonzero bool) tensor.
 func genC03(dir, tier string, seed int64) {
 	perOp := 130
 	if tier == "thorough" {
-		perOp = 3000
+		perOp = 10000
 	}
 	hdr := "From Coq Require Import List String ZArith.\nFrom V Require Import DType Case CheckC03.\nFrom Gen Require Import OpTable.\nImport ListNotations.\nOpen Scope string_scope.\nOpen Scope Z_scope.\nDefinition cases : list opcase := ["
 	ftr := "].\nDefinition verdicts := Eval vm_compute in map (verdict optable13) cases.\nPrint verdicts.\nDefinition kinds := Eval vm_compute in map kind cases.\nPrint kinds."
